@@ -39,3 +39,111 @@ pub fn run_one(ctx: &mut Context, command: &str, args: Vec<String>, output: Opti
 pub fn run_text(text: &str, ctx: Context) -> Result<Context, duckscript::types::error::ScriptError> {
     duckscript::runner::run_script(text, ctx, Some(quiet_env(None)))
 }
+
+use duckscript::types::command::{Command, CommandInvocationContext};
+use std::cell::RefCell;
+use std::rc::Rc;
+use std::sync::atomic::Ordering;
+use std::sync::Mutex;
+use std::time::{Duration, Instant};
+
+/// harness command `emit`: records its (bound) arguments
+#[derive(Clone)]
+pub struct Emit {
+    pub seen: Rc<RefCell<Vec<Vec<String>>>>,
+}
+impl Command for Emit {
+    fn name(&self) -> String { "emit".to_string() }
+    fn clone_and_box(&self) -> Box<dyn Command> { Box::new(self.clone()) }
+    fn run(&self, ctx: CommandInvocationContext) -> CommandResult {
+        self.seen.borrow_mut().push(ctx.arguments.clone());
+        CommandResult::Continue(None)
+    }
+}
+
+/// harness command `inc n`: decimal successor (error for anything that is not a plain decimal)
+#[derive(Clone)]
+pub struct Inc;
+fn plain_decimal(s: &str) -> Option<u128> {
+    if s.is_empty() || !s.bytes().all(|b| b.is_ascii_digit()) { None } else { s.parse().ok() }
+}
+impl Command for Inc {
+    fn name(&self) -> String { "inc".to_string() }
+    fn clone_and_box(&self) -> Box<dyn Command> { Box::new(self.clone()) }
+    fn run(&self, ctx: CommandInvocationContext) -> CommandResult {
+        if ctx.arguments.len() != 1 { return CommandResult::Error("inc".into()); }
+        match plain_decimal(&ctx.arguments[0]) {
+            Some(n) => CommandResult::Continue(Some((n + 1).to_string())),
+            None => CommandResult::Error("inc".into()),
+        }
+    }
+}
+
+/// harness command `lt a b` on plain decimals
+#[derive(Clone)]
+pub struct Lt;
+impl Command for Lt {
+    fn name(&self) -> String { "lt".to_string() }
+    fn clone_and_box(&self) -> Box<dyn Command> { Box::new(self.clone()) }
+    fn run(&self, ctx: CommandInvocationContext) -> CommandResult {
+        if ctx.arguments.len() != 2 { return CommandResult::Error("lt".into()); }
+        match (plain_decimal(&ctx.arguments[0]), plain_decimal(&ctx.arguments[1])) {
+            (Some(a), Some(b)) => CommandResult::Continue(Some((a < b).to_string())),
+            _ => CommandResult::Error("lt".into()),
+        }
+    }
+}
+
+static WATCH: Mutex<Vec<(Instant, Arc<AtomicBool>)>> = Mutex::new(Vec::new());
+static WATCH_STARTED: AtomicBool = AtomicBool::new(false);
+
+/// a halt flag that a background watchdog raises after `ms` milliseconds
+pub fn guarded_halt(ms: u64) -> Arc<AtomicBool> {
+    let flag = Arc::new(AtomicBool::new(false));
+    WATCH.lock().unwrap().push((Instant::now() + Duration::from_millis(ms), flag.clone()));
+    if !WATCH_STARTED.swap(true, Ordering::SeqCst) {
+        std::thread::spawn(|| loop {
+            std::thread::sleep(Duration::from_millis(50));
+            let now = Instant::now();
+            let mut w = WATCH.lock().unwrap();
+            w.retain(|(deadline, flag)| {
+                if Arc::strong_count(flag) == 1 { return false; }
+                if *deadline <= now { flag.store(true, Ordering::SeqCst); false } else { true }
+            });
+        });
+    }
+    flag
+}
+
+/// handles are random: print them as `handle:*`
+pub fn canon_val(v: &str) -> String {
+    if v.starts_with("handle:") { "handle:*".to_string() } else { v.to_string() }
+}
+
+/// run a script with the SDK + emit/inc/lt; outcome in the canonical form of lean/DuckModel/Drv/C04.lean
+pub fn run_structured(text: &str, vars: &[(String, String)]) -> String {
+    let seen = Rc::new(RefCell::new(vec![]));
+    let mut ctx = sdk_context();
+    ctx.commands.set(Box::new(Emit { seen: seen.clone() })).unwrap();
+    ctx.commands.set(Box::new(Inc)).unwrap();
+    ctx.commands.set(Box::new(Lt)).unwrap();
+    for (k, v) in vars {
+        ctx.variables.insert(k.clone(), v.clone());
+    }
+    let halt = guarded_halt(3000);
+    let res = duckscript::runner::run_script(text, ctx, Some(quiet_env(Some(halt.clone()))));
+    if halt.load(Ordering::SeqCst) {
+        return "timeout".to_string();
+    }
+    match res {
+        Ok(c) => {
+            let mut items: Vec<String> = c.variables.iter().map(|(k, v)| format!("{}={}", crate::wire::enc_str(k), crate::wire::enc_str(&canon_val(v)))).collect();
+            items.sort();
+            let vars = if items.is_empty() { "-".to_string() } else { items.join(",") };
+            let emit = seen.borrow().iter().map(|l| crate::wire::enc_list(&l.iter().map(|s| canon_val(s)).collect::<Vec<_>>())).collect::<Vec<_>>().join(";");
+            format!("ok VARS {} EMIT {}", vars, emit)
+        }
+        Err(duckscript::types::error::ScriptError::Runtime(_, m)) => format!("fail {}", crate::wire::enc_opt_num(&m.unwrap_or_default().line)),
+        Err(_) => "parse-error".to_string(),
+    }
+}
